@@ -90,6 +90,8 @@ def install(eng):
     reg(zip, b_zip)
     reg(id, b_unsupported("id"))
     reg(super, b_super)
+    import typing
+    reg(typing.cast, lambda eng, st, args, kwargs: ok(st, args[1]))
 
 
 _KEEP = []
@@ -116,8 +118,23 @@ def splitargs(impl):
 
 
 def b_super(eng, st, args, kwargs):
-    """super() inside an exception class's __init__: the base __init__ only stores args (already recorded)."""
-    return ok(st, VFunc("superproxy", name="super"))
+    """Zero-argument super(): resolved from the enclosing method's defining class (its qualname) and `self`."""
+    from . import source
+    oid = st.frames[-1]
+    fname, module, selfv = None, None, None
+    while oid is not None:
+        env = st.heap[oid]
+        if fname is None and "." in (env.f.get("__fname__") or "") and "self" in env.f:
+            fname, module, selfv = env.f["__fname__"], env.f.get("__module__"), env.f["self"]
+        oid = env.f.get("__parent__")
+    cls = None
+    if fname is not None and module:
+        cname = fname.replace("@contract", "").split(".")[0]
+        try:
+            cls = getattr(source.import_live(module), cname)
+        except Exception:
+            cls = None
+    return ok(st, VFunc("superproxy", name="super", cls=cls, selfv=selfv))
 
 
 def b_unsupported(name):
@@ -912,7 +929,18 @@ def getattr_(eng, st, v, name):
         raise Unsupported(f"attribute {name} of opaque object {v}")
     if isinstance(v, VFunc):
         if v.kind == "superproxy":
-            if name == "__init__":
+            cls = getattr(v, "cls", None)
+            if isinstance(cls, type) and not issubclass(cls, BaseException):
+                for k in cls.__mro__[1:]:
+                    m = eng.find_method(k, name, st) if name in vars(k) else None
+                    if m is not None:
+                        return VFunc("bound", func=m, selfv=v.selfv)
+                    if name in vars(k):
+                        break
+                if name == "__init__":
+                    return VFunc("builtin", name="object.__init__", impl=lambda e, s, a, k: ok(s, VNone))
+                raise Unsupported(f"super().{name} of {cls.__name__}")
+            if name == "__init__":       # exception classes: the base __init__ only stores args (already recorded)
                 return VFunc("builtin", name="super().__init__", impl=lambda e, s, a, k: ok(s, VNone))
             raise Unsupported(f"super().{name}")
         if name == "__name__":
